@@ -24,7 +24,7 @@ func (C12) Plan(tier string) core.Plan {
 
 func (C12) Info() core.Info {
 	return core.Info{
-		Rule: "2-4 simulated caller threads x 1-3 operations each (Call, Convert, Redefine, calls of one shared redefined function made beforehand) over one shared target *Func, shared converter *Funcs and shared option values reused verbatim by every thread (Named, NamedSubtype, Typed, TypedSubtype, Converter, ConverterFunc, ConverterGen, FilterInput/Output, defaults given to NewFunc); targets and converters wrap ordinary functions (no FuncOnce, no BuildFunc, as the statement says). Schedules alternate: even = the same operations run sequentially (baseline of outcomes), odd = concurrent under the baton scheduler with seeded preemption (random at every yield point, at shared accesses only, targeted at the n-th shared access, none). Oracle 1: the simulator's happens-before detector (vector clocks over every woven read/write of memory reachable through a pointer, slice, captured or package-level variable, every map read/write, lock/once edges) reports no unordered conflicting pair. Oracle 2: every concurrent operation returns; on worlds whose outcome does not depend on iteration order (C05 classes) its outcome kind is one the sequential baseline produced for that operation; and every party execution satisfies the provenance invariant. Non-trivial: >=2 threads overlapped (>=1 context switch) on >=1 shared converter or option; distinct = distinct (world shape, event-log hash)",
+		Rule: "2-4 simulated caller threads x 1-3 operations each (Call, Convert, Redefine, calls of one shared redefined function made beforehand) over one shared target *Func, shared converter *Funcs and shared option values reused verbatim by every thread (Named, NamedSubtype, Typed, TypedSubtype, Converter, ConverterFunc, ConverterGen, FilterInput/Output, defaults given to NewFunc); targets and converters wrap ordinary functions (no FuncOnce, no BuildFunc, as the statement says). Schedules alternate: even = the same operations run sequentially (baseline of outcomes), odd = concurrent under the baton scheduler with seeded preemption (random at every yield point, at shared accesses only, targeted at the n-th shared access, none). Oracle 1: the simulator's happens-before detector (vector clocks over every woven read/write of memory reachable through a pointer, slice, captured or package-level variable, every map read/write, lock/once edges) reports no unordered conflicting pair. Oracle 2: every concurrent operation returns; on worlds whose outcome does not depend on iteration order (C05 classes) its outcome kind is one the sequential baseline produced for that operation; and every party execution satisfies the provenance invariant; the concurrent execution precedes the sequential baseline within a case; Convert target types vary per thread; some calls carry an inapplicable option; sync.Pool is simulated (LIFO, per-item happens-before). Non-trivial: >=2 threads overlapped (>=1 context switch) on >=1 shared converter or option; distinct = distinct (world shape, event-log hash)",
 		Assumptions: []string{
 			"the detector sees woven access forms only: party bodies, reflect, hclog and multierror internals are outside it",
 			"races are properties of the happens-before relation, not of the interleaving that happened to run: one concurrent run suffices to report a pair it covers",
